@@ -60,6 +60,7 @@ type vNode struct {
 	Calls      []vCall  ` + "`json:\"calls,omitempty\"`" + `
 	Skip       string   ` + "`json:\"skip,omitempty\"`" + `
 	SkipAt     int      ` + "`json:\"skip_at,omitempty\"`" + `
+	SkipExec   int      ` + "`json:\"skip_exec,omitempty\"`" + `
 	Parallel   bool     ` + "`json:\"parallel,omitempty\"`" + `
 	Subs       []string ` + "`json:\"subs,omitempty\"`" + `
 	Goroutines bool     ` + "`json:\"goroutines,omitempty\"`" + `
@@ -77,8 +78,10 @@ type vScenario struct {
 }
 
 var (
-	vscn   vScenario
-	vlogMu sync.Mutex
+	vscn    vScenario
+	vexecMu sync.Mutex
+	vexecs  = map[string]int{} // executions of each test so far in this process
+	vlogMu  sync.Mutex
 	vlogF  *os.File
 	vseq   int64
 )
@@ -483,7 +486,14 @@ func runTB_{{SFX}}(t testing.TB, sub func(name string, f func(t *testing.T))) {
 			tt.Parallel()
 		}
 	}
+	vexecMu.Lock()
+	vexecs[name]++
+	execNo := vexecs[name]
+	vexecMu.Unlock()
 	skip := func() {
+		if node.SkipExec > 0 && node.SkipExec != execNo {
+			return // the skip happens in one execution of the test only
+		}
 		vlog(map[string]any{"ev": "skip", "test": name, "wrapper": node.Skip})
 		rec := &recT{t: t, of: -1}
 		switch node.Skip {
